@@ -155,6 +155,23 @@ func judgeC11(s *stored, ls loadSpec, st *store.Store, r *loadResult, start []ci
 	if !r.ret {
 		return "no-return", []sched.Finding{{Key: "load-did-not-return", What: "the loader did not return"}}
 	}
+	if ls.CallerDeadline {
+		waited, fired := false, false
+		for _, d := range res.TimerQuiescent {
+			waited = waited || d == callerDeadline
+		}
+		for _, d := range res.TimerDurs {
+			fired = fired || d == callerDeadline
+		}
+		if waited && ls.Timeout {
+			// every thread of the load was blocked and only the caller's far-away deadline could end the wait:
+			// the configured timeout (far shorter) did not bound the load
+			return "waited-for-caller-deadline", []sched.Finding{{Key: "fetch-timeout-not-honoured", What: fmt.Sprintf("a load with a configured timeout of 1s under a caller context whose own deadline is %v away ended only when the caller's deadline fired (timers fired: %v)", callerDeadline, res.TimerDurs)}}
+		}
+		if fired {
+			return "caller-deadline-landed-first", nil // the caller gave up: nothing more is promised
+		}
+	}
 	if r.err != nil {
 		return "error", []sched.Finding{{Key: "load-error:" + ls.Loader, What: "loader failed instead of skipping faulty blocks: " + r.err.Error()}}
 	}
@@ -286,6 +303,11 @@ func c11Scenarios(tier string) []Spec {
 				for _, c := range concs {
 					ls := loadSpec{Shape: sh, Loader: ld, Conc: c, N: -1, Faults: as, Timeout: hasSlow(as)}
 					specs = append(specs, Spec{HBCache: true, RaceBound: 0, Shards: 1, Sc: makeLoad("C11", ls, judgeC11)})
+					if hasSlow(as) {
+						// the same under a caller context with its own, far later deadline: the configured timeout still bounds the load
+						ls.CallerDeadline = true
+						specs = append(specs, Spec{HBCache: true, RaceBound: 0, Shards: 1, NoRace: true, Sc: makeLoad("C11", ls, judgeC11)})
+					}
 				}
 			}
 		}
@@ -341,6 +363,9 @@ func c11Scenarios(tier string) []Spec {
 			for _, ld := range []string{"fetchall", "multihash", "entryhash", "json", "entry"} {
 				for _, c := range []int{1, 3} {
 					batch = append(batch, makeLoad("C11", loadSpec{Shape: sh, Loader: ld, Conc: c, N: -1, Faults: as, Timeout: hasSlow(as)}, judgeC11))
+					if hasSlow(as) {
+						batch = append(batch, makeLoad("C11", loadSpec{Shape: sh, Loader: ld, Conc: c, N: -1, Faults: as, Timeout: true, CallerDeadline: true}, judgeC11))
+					}
 				}
 			}
 		}
